@@ -10,11 +10,13 @@ from ..core import SubCheck, Fail, Discard, HarnessError, metric
 from ..oracles import angle_ref as AR
 
 RULE = ("query strings over the domains of C04 / C05 x from_angle_type, to_angle_type in {dd, dms, absent} (9 combinations) x "
-        "decimal or HP-valid inputs incl. western / southern (negative) values, through the Flask test client (in-process); "
+        "decimal or HP-valid inputs incl. western / southern (negative) values and the ends of the ranges (90 / 180 / 360 deg in either "
+        "form), numbers written as repr, integer, +signed, exponent, trailing / leading zeros, through the Flask test client "
+        "(in-process); "
         "non-trivial = at least one angle type given and different from the default")
 ASSUMPTIONS = ["the JSON body is compared value for value (==) with the library call on the same float arguments, with hp2dec on the "
                "inputs iff from_angle_type = dms and dec2hp on the angular outputs iff to_angle_type = dms (distances never converted)",
-               "query values are sent as repr(float), which Python parses back to the same float"]
+               "query values are sent in several literal styles, each verified to parse back to exactly the same float (else repr is used)"]
 
 _APP = []
 
